@@ -71,7 +71,8 @@ impl ops::Deref for Segment {
 
 impl PartialEq for Segment {
 	fn eq(&self, other: &Self) -> bool {
-		self.as_pct_str() == other.as_pct_str()
+		// compare the decoded bytes: they may not be UTF-8 encoded text.
+		self.as_pct_str().bytes().eq(other.as_pct_str().bytes())
 	}
 }
 
@@ -85,12 +86,14 @@ impl PartialOrd for Segment {
 
 impl Ord for Segment {
 	fn cmp(&self, other: &Self) -> cmp::Ordering {
-		self.as_pct_str().cmp(other.as_pct_str())
+		self.as_pct_str().bytes().cmp(other.as_pct_str().bytes())
 	}
 }
 
 impl Hash for Segment {
 	fn hash<H: hash::Hasher>(&self, state: &mut H) {
-		self.as_pct_str().hash(state)
+		for b in self.as_pct_str().bytes() {
+			b.hash(state)
+		}
 	}
 }
